@@ -570,10 +570,48 @@ def shared_cond_scenario(draw):
 
 
 @st.composite
+def stacked_cond_scenario(draw):
+    """One aux framer is the conditional aux of an upper AND of a lower frame of the same outline (top > mid > leaf).
+    The clause whose conditions hold first starts it and is its only owner: the other clause neither runs it nor
+    counts as interrupted, so the transitions written behind that clause (and those of the frames between) stay
+    live; the aux is exited with its main frame."""
+    geq = lambda k: {"kind": "cmp", "state": ".n.a", "op": ">=", "goal": k, "neg": False}
+    obs = lambda ctx, p: {"kind": "inc", "dst": p, "val": 1, "ctx": ctx}
+    tl = draw(st.integers(1, 4))             # the lower clause's conditions
+    tu = draw(st.integers(1, 9))             # the upper clause's conditions (before, with or after the lower one's)
+    te = draw(st.integers(2, 10))            # `go escape` written behind the upper clause
+    tm = draw(st.sampled_from([None, None, draw(st.integers(2, 10))]))   # `go other` in mid
+    dur = draw(st.sampled_from([None, None, 2, 5]))
+    top = {"name": "top", "over": None, "acts": [obs("recur", ".n.b"), {"kind": "aux", "name": "x0", "needs": [geq(tu)]},
+                                                 {"kind": "go", "far": "escape", "needs": [geq(te)]}]}
+    mid_acts = [{"kind": "aux", "name": "x0", "needs": [geq(tl)]}]
+    if tm is not None:
+        mid_acts.insert(draw(st.integers(0, 1)), {"kind": "go", "far": "other", "needs": [geq(tm)]})
+    mid = {"name": "mid", "over": "top", "acts": mid_acts + [obs("exit", ".n.c")]}
+    leaf = {"name": "leaf", "over": "mid", "acts": [obs("recur", ".n.c")]}
+    other = {"name": "other", "over": "top", "acts": [obs("recur", ".n.b")]}
+    escape = {"name": "escape", "over": None, "acts": [obs("enter", ".n.b")]}
+    xa = {"name": "xa", "over": None, "acts": [obs("enter", ".n.c"), obs("recur", ".n.c"), obs("exit", ".n.c")]}
+    xframes = [xa]
+    if dur is not None:
+        xa["acts"].append({"kind": "repeat", "n": dur})
+        xframes.append({"name": "xb", "over": None, "acts": [{"kind": "done", "targets": ["me"]}]})
+    framers = [{"name": "drv", "sched": "active", "order": "front", "period": None, "first": None,
+                "frames": [{"name": "drva", "over": None, "acts": [{"kind": "inc", "dst": ".n.a", "val": 1, "ctx": "recur"}]}]},
+               {"name": "m0", "sched": "active", "order": None, "period": None, "first": "mid", "frames": [top, mid, leaf, other, escape]},
+               {"name": "x0", "sched": "aux", "order": None, "period": None, "first": None, "frames": xframes}]
+    return {"period": "0.125", "ticks": draw(st.integers(8, 16)), "inits": [[p, 0] for p in NUM], "framers": framers}
+
+
+@st.composite
 def cond_scenarios(draw):
-    """suspension scenarios (3 of 4) and shared guarded conditional aux scenarios (1 of 4)"""
-    if draw(st.integers(0, 3)) == 0:
+    """suspension scenarios (5 of 8), shared guarded conditional aux scenarios (2 of 8) and one aux framer used as the
+    conditional aux of two frames of one outline (1 of 8)"""
+    k = draw(st.integers(0, 7))
+    if k in (0, 4):
         return draw(shared_cond_scenario())
+    if k == 7:
+        return draw(stacked_cond_scenario())
     return draw(suspend_scenario())
 
 
